@@ -1199,8 +1199,13 @@ class Irc(IrcCommandDispatcher, log.Firewalled):
                 for edge in edgesToRemove:
                     edges.remove(edge)
             firsts = getFirsts()
-        assert len(cbs) == len(self.callbacks), \
-               'cbs: %s, self.callbacks: %s' % (cbs, self.callbacks)
+        if len(cbs) != len(self.callbacks):
+            # The precedence constraints form a cycle: refuse the new callback
+            # instead of leaving it registered, out of order.
+            message = 'cbs: %s, self.callbacks: %s' % (cbs, self.callbacks)
+            self.callbacks[:] = [cb for cb in self.callbacks
+                                 if cb is not callback]
+            raise AssertionError(message)
         self.callbacks[:] = cbs
 
     def getCallback(self, name):
